@@ -13,6 +13,29 @@ static int h_open(handle_t *h,const unsigned char *d,size_t n,int seekmode){
 static void h_close(handle_t *h){ if(h->open){ ov_clear(&h->vf); h->open=0; } }
 
 /* ------------------------------------------------------------------ C09 */
+/* linear read through the 16-bit integer interface against a float reference decode: per link exactly nout frames of that link's own frame size, each value the rounded float.
+   Returns 1 if fine.  keys are reported under `prop`. */
+static int int_linear(const unsigned char *d,size_t n,const refdec_t *whole,int seekmode,int rs,int cap,uint64_t seed,long id,const char *prop,const char *desc){
+  int ok=1;
+  handle_t hi; memset(&hi,0,sizeof hi); static __thread unsigned char ib[4096]; long fr[VH_MAXLINKS]; memset(fr,0,sizeof fr); int bsi=0; long g; int len=(int)sizeof ib-(int)(id%7);
+  memsrc_init(&hi.ms,d,n,seekmode); if(rs>=0) memsrc_schedule(&hi.ms,rs,cap,seed);
+  if(ov_open_callbacks(&hi.ms,&hi.vf,NULL,0,memsrc_cb(&hi.ms))==0){ hi.open=1;
+    while((g=ov_read(&hi.vf,(char*)ib,len,0,2,1,&bsi))!=0){
+      if(g<0){ res_viol(prop,"int-linear-read-broken","ov_read returned %ld: %s",g,desc); ok=0; break; }
+      if(bsi<0||bsi>=whole->nlinks){ res_viol(prop,"int-linear-read-broken","bitstream %d of %d",bsi,whole->nlinks); ok=0; break; }
+      const reflink_t *W=&whole->l[bsi]; int frame=2*W->ch;
+      if(g%frame || g>len){ res_viol(prop,"int-read-frame-size","link %d (%d channels): ov_read returned %ld bytes of %d asked: %s",bsi,W->ch,g,len,desc); ok=0; break; }
+      long nf=g/frame; if(fr[bsi]+nf>W->nout){ res_viol(prop,"int-read-link-length","link %d delivered more than its %ld samples through ov_read: %s",bsi,W->nout,desc); ok=0; break; }
+      for(long j=0;j<nf && ok;j++) for(int c=0;c<W->ch;c++){ long v=(long)ib[(j*W->ch+c)*2]|((long)ib[(j*W->ch+c)*2+1]<<8); if(v>=32768) v-=65536;
+        float x=W->pcm[c][fr[bsi]+j]; if(x!=x) continue; double e=(double)x*32768.0; if(e>32767) e=32767; if(e<-32768) e=-32768;
+        if(fabs((double)v-e)>0.5001){ res_viol(prop,"int-read-audio-differs","link %d ch %d sample %ld: ov_read %ld, float decode %.9g: %s",bsi,c,fr[bsi]+j,v,(double)x,desc); ok=0; break; } }
+      fr[bsi]+=nf; res_eval(1);
+    }
+    for(int i=0;i<whole->nlinks && ok;i++) if(fr[i]!=whole->l[i].nout){ res_viol(prop,"int-read-link-length","link %d: %ld frames through ov_read, %ld through ov_read_float: %s",i,fr[i],whole->l[i].nout,desc); ok=0; }
+    h_close(&hi);
+  } else { res_viol(prop,"int-linear-read-broken","open failed: %s",desc); ok=0; }
+  return ok;
+}
 static void case_c09(const drvargs_t *a,long id){
   rng_t r; rng_seed(&r,a->seed,9,(uint64_t)id);
   chaindesc_t cd; buf_t phys; buf_init(&phys); size_t loff[VH_MAXLINKS+1];
@@ -85,24 +108,7 @@ static void case_c09(const drvargs_t *a,long id){
       }
       ref_free(&alone);
     }
-    if(ok){ /* the same through the integer interface: per link exactly nout frames of that link's own frame size, each value the rounded float */
-      handle_t hi; memset(&hi,0,sizeof hi); static unsigned char ib[4096]; long fr[VH_MAXLINKS]; memset(fr,0,sizeof fr); int bsi=0; long g; int len=(int)sizeof ib-(int)(id%7);
-      if(h_open(&hi,phys.p,phys.n,(id&1)?1:0)==0){
-        while((g=ov_read(&hi.vf,(char*)ib,len,0,2,1,&bsi))!=0){
-          if(g<0){ res_viol("C09","int-linear-read-broken","ov_read returned %ld: %s",g,desc); ok=0; break; }
-          if(bsi<0||bsi>=whole.nlinks){ res_viol("C09","int-linear-read-broken","bitstream %d of %d",bsi,whole.nlinks); ok=0; break; }
-          reflink_t *W=&whole.l[bsi]; int frame=2*W->ch;
-          if(g%frame || g>len){ res_viol("C09","int-read-frame-size","link %d (%d channels): ov_read returned %ld bytes of %d asked: %s",bsi,W->ch,g,len,desc); ok=0; break; }
-          long nf=g/frame; if(fr[bsi]+nf>W->nout){ res_viol("C09","int-read-link-length","link %d delivered more than its %ld samples through ov_read: %s",bsi,W->nout,desc); ok=0; break; }
-          for(long j=0;j<nf && ok;j++) for(int c=0;c<W->ch;c++){ long v=(long)ib[(j*W->ch+c)*2]|((long)ib[(j*W->ch+c)*2+1]<<8); if(v>=32768) v-=65536;
-            float x=W->pcm[c][fr[bsi]+j]; if(x!=x) continue; double e=(double)x*32768.0; if(e>32767) e=32767; if(e<-32768) e=-32768;
-            if(fabs((double)v-e)>0.5001){ res_viol("C09","int-read-audio-differs","link %d ch %d sample %ld: ov_read %ld, float decode %.9g: %s",bsi,c,fr[bsi]+j,v,(double)x,desc); ok=0; break; } }
-          fr[bsi]+=nf; res_eval(1);
-        }
-        for(int i=0;i<whole.nlinks && ok;i++) if(fr[i]!=whole.l[i].nout){ res_viol("C09","int-read-link-length","link %d: %ld frames through ov_read, %ld through ov_read_float: %s",i,fr[i],whole.l[i].nout,desc); ok=0; }
-        h_close(&hi);
-      } else { res_viol("C09","int-linear-read-broken","open failed: %s",desc); ok=0; }
-    }
+    if(ok) ok=int_linear(phys.p,phys.n,&whole,(id&1)?1:0,-1,0,0,id,"C09",desc);
     if(ok){
       int zero=0,tiny=0; for(int i=0;i<cd.nlinks;i++){ if(cd.cfg[i].nsamples==0)zero=1; else if(cd.cfg[i].nsamples<400)tiny=1; }
       res_bucket("k%d|zero%d|tiny%d|first%s",cd.nlinks>8?9:cd.nlinks,zero,tiny,cd.cfg[0].nsamples<2000?"short":"long");
@@ -238,6 +244,8 @@ static void case_c10(const drvargs_t *a,long id){
       buf_free(&phys); phys=q; res_count("streams_with_multiplexed_foreign_streams",1); } }
   vh_dump("stream.ogg",phys.p,phys.n);
   refdec_t ref; if(ref_decode(phys.p,phys.n,0,&ref)){ res_viol("C10","seekable-read-broken","%s: %s",ref.err,desc); res_eval(1); ref_free(&ref); res_end(); buf_free(&phys); return; }
+  /* the integer read call is a read call too: one pass per case, seekable or streaming, under a short-read schedule */
+  { int sm=(int)(id&1); int rs0=(int)rng_below(&r,RS_NKINDS); int cap0=(int)rng_range(&r,1,3000); if(int_linear(phys.p,phys.n,&ref,sm,rs0,cap0,rng_next(&r),id,"C10",desc)) res_bucket("int-read|%s|rs%d",sm?"seekable":"streaming",rs0); }
   int nsched=a->thorough?10:5;
   for(int k=0;k<nsched && !res_nviol();k++){
     int seekmode = (k%2)?0:1; if(rng_chance(&r,0.15)) seekmode=2;
